@@ -390,3 +390,30 @@ def one_shot_captures(outer_node, inner_node):
                 if lazy and n.targets[0].id in inner_reads and n.targets[0].id not in inner_binds:
                     out.append((n, n.targets[0].id, norm(lv)[:80]))
     return out
+
+
+def closure_state_writes(outer_node, inner_node):
+    """state that a closure keeps between its calls in a variable of its factory: `nonlocal` rebinding, or mutation of a container
+    the factory created (append / subscript store / update ...)"""
+    out = []
+    containers = {}
+    for n in walk_own(outer_node):
+        if isinstance(n, ast.Assign) and len(n.targets) == 1 and isinstance(n.targets[0], ast.Name):
+            v = n.value
+            if isinstance(v, (ast.List, ast.Dict, ast.Set)) or (isinstance(v, ast.Call) and isinstance(v.func, ast.Name) and
+                                                                   v.func.id in ('list', 'dict', 'set', 'defaultdict', 'OrderedDict', 'Counter', 'deque')):
+                containers[n.targets[0].id] = n
+    inner_binds = {x.arg for x in ast.walk(inner_node) if isinstance(x, ast.arg)} | \
+        {x.id for x in ast.walk(inner_node) if isinstance(x, ast.Name) and isinstance(x.ctx, ast.Store)}
+    for n in ast.walk(inner_node):
+        if isinstance(n, ast.Nonlocal):
+            for nm in n.names:
+                out.append((n, nm, 'nonlocal %s' % nm))
+        if isinstance(n, ast.Call) and isinstance(n.func, ast.Attribute) and isinstance(n.func.value, ast.Name) and n.func.value.id in containers and \
+                n.func.value.id not in inner_binds and n.func.attr in MUTATORS:
+            out.append((n, n.func.value.id, norm(n)[:80]))
+        if isinstance(n, (ast.Assign, ast.AugAssign)):
+            for t in (n.targets if isinstance(n, ast.Assign) else [n.target]):
+                if isinstance(t, ast.Subscript) and isinstance(t.value, ast.Name) and t.value.id in containers and t.value.id not in inner_binds:
+                    out.append((n, t.value.id, norm(n)[:80]))
+    return out
